@@ -13,6 +13,7 @@ import (
 
 	"github.com/zitadel/logging"
 
+	"verif/harness/internal/attrquery"
 	"verif/harness/internal/c16"
 	"verif/harness/internal/c17"
 	"verif/harness/internal/c20"
@@ -42,6 +43,8 @@ func main() {
 	switch prop {
 	case "C01", "C03", "C10":
 		err = callback.Run(prop, *out, *tier, *seed)
+	case "C12":
+		err = attrquery.Run(*out, *tier, *seed)
 	case "C13":
 		err = logout.Run(prop, *out, *tier, *seed)
 	case "C02", "C05", "C06", "C08":
